@@ -91,8 +91,8 @@ pub fn run(o: &Opts) -> Report {
             let generated = rng.chance(1, 2);
             let b3 = if generated { crate::c10::gen_b3_text(&mut rng) } else { b3s[rng.below(b3s.len())].to_string() };
             let b5 = if generated { crate::c10::gen_b5_text(&mut rng) } else { b5s[rng.below(b5s.len())].to_string() };
-            let app = if generated { crate::c10::gen_b2(&mut rng, &format!("{code:03}")) } else if rng.chance(1, 4) { format!("O{:03}1200240101BANKDEFFAXXX00000000002401011201N", code) } else { format!("I{:03}BANKDEFFXXXXN", code) };
-            let b1 = if generated { crate::c10::gen_b1(&mut rng) } else { "F01BANKBEBBAXXX0000000000".to_string() };
+            let app = if generated { crate::c10::gen_b2_loose(&mut rng, &format!("{code:03}")) } else if rng.chance(1, 4) { format!("O{:03}1200240101BANKDEFFAXXX00000000002401011201N", code) } else { format!("I{:03}BANKDEFFXXXXN", code) };
+            let b1 = if generated { crate::c10::gen_b1_loose(&mut rng) } else { "F01BANKBEBBAXXX0000000000".to_string() };
             let text = format!("{{1:{b1}}}{{2:{app}}}{b3}{{4:{eol}{}{eol}-}}{b5}", body.trim_end_matches(['\n', '\r']));
             let cls = format!("b3={} b5={}", b3.len().min(9), b5.len().min(9));
             if with_mt!(code, T => one::<T>(&mut rep, code, &text, &cls), false) {
